@@ -162,6 +162,9 @@ def evaluate(case, ctx):
     rots = [
         ('Quaternion.rotate', lambda: np.asarray(Q.rotate(np.array(v)))),
         ('Quaternion.rotate[3xN]', lambda: np.asarray(Q.rotate(np.c_[np.array(v), 2.0*np.array(v), np.array([1.0, 2.0, 3.0])]))[:, 0]),
+        # 3-by-N stacks of other widths (N = the case's n, 1..5), the case's vector in column idx, every column checked
+        ('Quaternion.rotate[3xn]', lambda: (lambda V: np.asarray(Q.rotate(np.array(V))) - Rq_ref @ V + ref[:, None])(
+            np.array([[(j + 1.5)*v[i] + (i + 1.0)*(j != case['idx']) for j in range(case['n'])] for i in range(3)])).T.reshape(-1, 3)),
         ('R@v', lambda: np.asarray(Q.to_DCM()) @ v),
         ('q v q*', lambda: np.asarray(ori.q_prod(np.asarray(Q.product(np.array([0.0, *v]))), np.asarray(Q.conjugate)))[1:]),
     ]
@@ -169,8 +172,8 @@ def evaluate(case, ctx):
         ok, r = ctx.call(f'rot:{name}', f)
         if not ok:
             continue
-        e = _maxabs(r, ref)
-        if e > tolv:
+        e = _maxabs(r, ref) if np.ndim(r) == 1 else max(_maxabs(row, ref) for row in r)
+        if e > (tolv if np.ndim(r) == 1 else tolv*8 + TOL*40):
             ctx.fail(f'rot:{name}|mismatch', f'max diff {e:.3e} |v|={vn:.3e}')
     ok, r = ctx.call('rot:q_rot', lambda: np.asarray(ori.q_rot(np.array(q), np.array(v))))
     if ok:
